@@ -212,12 +212,17 @@ def build():
       "cell_written": "row_id < len(self._data) and self._data[row_id] == value",
       "other_cells_kept": "forall(k, 0 <= k < len(old(self)._data) and k != row_id, "
                           "self._data[k] == old(self)._data[k])",
-      "indexed": "indexedL(self)",
-      "exact": "exactL(self)",
+      "indexed_row": "forall(i, 0 <= i < len(items(self, row_id)), refs(self._relation, row_id, items(self, row_id)[i]))",
+      "indexed_others": "forall(k, i, k >= 0 and k != row_id and 0 <= i < len(items(self, k)), refs(self._relation, k, items(self, k)[i]))",
+      "exact_row": "forall(t, refs(self._relation, row_id, t), exists(i, 0 <= i < len(items(self, row_id)), items(self, row_id)[i] == t))",
+      "exact_others": "forall(r, t, r != row_id and refs(self._relation, r, t), r >= 0 and "
+                      "exists(i, 0 <= i < len(items(self, r)), items(self, r)[i] == t))",
     }, defs=lview,
     notes="RefList flavour of BaseReferenceColumn.set: two loops of the inlined _update_references "
           "(remove the old list's references, add the new list's), each with `self` havocked and "
           "the index described against a snapshot taken at loop entry"))
+  import os
+  if os.environ.get("PYSYM_EXPERIMENTAL"): out.extend(experimental)
   return out
 
 
